@@ -18,6 +18,11 @@ pub struct Case {
     pub order: Vec<usize>,
     /// prefer the left neighbour (insert_after) over the right one (insert_before) when both are attached
     pub prefer_left: bool,
+    /// Some(api): elements are created bare and every declaration / attribute is its own step (indices after the
+    /// attach steps, in pre-order of elements, declarations before attributes); api 0 = append_namespace_node /
+    /// append_attribute_node, 1 = any_append, 2 = namespaces_mut().insert / set_attribute
+    #[serde(default)]
+    pub decor: Option<u8>,
 }
 
 fn to_fixed_pi(a: &A) -> fixed::ProcessingInstruction {
@@ -76,18 +81,108 @@ fn plan(a: &A) -> Plan<'_> {
 }
 
 /// stepwise construction; returns None if the order would make two text nodes adjacent transiently
-fn stepwise(xot: &mut Xot, tree: &A, order: &[usize], prefer_left: bool, ops_used: &mut Vec<&'static str>) -> Option<Result<Node, String>> {
+/// decoration steps of a document: (plan index of the element, is declaration, index in its list)
+fn decorations(tree: &A) -> Vec<(usize, bool, usize)> {
     let p = plan(tree);
-    // create every node unattached (elements with their declarations and attributes)
+    let mut out = vec![];
+    for (i, n) in p.nodes.iter().enumerate() {
+        for j in 0..n.nss.len() {
+            out.push((i, true, j));
+        }
+        for j in 0..n.attrs.len() {
+            out.push((i, false, j));
+        }
+    }
+    out
+}
+
+/// the order keeps declarations (and attributes) of one element in their map order
+fn decor_order_valid(tree: &A, order: &[usize]) -> bool {
+    let n = tree.normal_size() - 1;
+    let decs = decorations(tree);
+    let mut last: std::collections::HashMap<(usize, bool), usize> = Default::default();
+    for &s in order {
+        if s >= n {
+            let (e, d, j) = decs[s - n];
+            let want = last.get(&(e, d)).map(|x| x + 1).unwrap_or(0);
+            if j != want {
+                return false;
+            }
+            last.insert((e, d), j);
+        }
+    }
+    true
+}
+
+fn stepwise(xot: &mut Xot, tree: &A, order: &[usize], prefer_left: bool, decor: Option<u8>, ops_used: &mut Vec<&'static str>) -> Option<Result<Node, String>> {
+    let p = plan(tree);
+    // create every node unattached (elements with their declarations and attributes, unless these are steps)
     let mut handles: Vec<Node> = vec![];
     for n in &p.nodes {
         let mut shallow = (*n).clone();
         shallow.ch.clear();
+        if decor.is_some() {
+            shallow.nss.clear();
+            shallow.attrs.clear();
+        }
         handles.push(build1(xot, &shallow));
     }
+    let decs = decorations(tree);
+    let nattach = p.nodes.len() - 1;
     let mut attached = vec![false; p.nodes.len()];
     attached[0] = true; // the document node is the root everything is attached to (directly or bottom-up)
     for &step in order {
+        if step >= nattach {
+            let (ei, is_decl, j) = decs[step - nattach];
+            let el = handles[ei];
+            let r: Result<(), xot::Error> = if is_decl {
+                let d = &p.nodes[ei].nss[j];
+                let (pf, ns) = (xot.add_prefix(&d.name), xot.add_namespace(&d.ns));
+                match decor.unwrap_or(0) {
+                    0 => {
+                        ops_used.push("append_namespace_node");
+                        let n = xot.new_namespace_node(pf, ns);
+                        xot.append_namespace_node(el, n).map(|_| ())
+                    }
+                    1 => {
+                        ops_used.push("any_append");
+                        let n = xot.new_namespace_node(pf, ns);
+                        xot.any_append(el, n).map(|_| ())
+                    }
+                    _ => {
+                        ops_used.push("map_insert");
+                        xot.namespaces_mut(el).insert(pf, ns);
+                        Ok(())
+                    }
+                }
+            } else {
+                let a = &p.nodes[ei].attrs[j];
+                let ns = xot.add_namespace(&a.ns);
+                let name = xot.add_name_ns(&a.name, ns);
+                let val = a.val.clone().unwrap_or_default();
+                match decor.unwrap_or(0) {
+                    0 => {
+                        ops_used.push("append_attribute_node");
+                        let n = xot.new_attribute_node(name, val);
+                        xot.append_attribute_node(el, n).map(|_| ())
+                    }
+                    1 => {
+                        ops_used.push("any_append");
+                        let n = xot.new_attribute_node(name, val);
+                        xot.any_append(el, n).map(|_| ())
+                    }
+                    _ => {
+                        ops_used.push("map_insert");
+                        xot.set_attribute(el, name, val);
+                        Ok(())
+                    }
+                }
+            };
+            if let Err(e) = r {
+                return Some(Err(format!("{:?}", e)));
+            }
+            continue;
+        }
         let i = step + 1; // non-root nodes are 1..
         let par = p.parent[i].unwrap();
         let sibs = &p.kids[par];
@@ -212,12 +307,12 @@ pub fn eval_case(case: &Case, st: &mut Stats) -> Vec<Fail> {
     }
     // route C: stepwise in the given order
     let mut ops = vec![];
-    match catch(|| stepwise(&mut xot, tree, &case.order, case.prefer_left, &mut ops)) {
+    match catch(|| stepwise(&mut xot, tree, &case.order, case.prefer_left, case.decor, &mut ops)) {
         Err(p) => fails.push(Fail::new(format!("panic|stepwise|{}", panic_class(&p)), format!("{} order {:?}", tree.show(), case.order))),
         Ok(None) => {
             st.bump("orders_skipped_text_adjacent");
         }
-        Ok(Some(Err(e))) => fails.push(Fail::new(format!("stepwise-refused|{}", crate::props::c01::err_class(&e)), format!("{} order {:?} ops {:?}: {}", tree.show(), case.order, ops, e))),
+        Ok(Some(Err(e))) => fails.push(Fail::new(format!("stepwise-refused|{}", crate::props::c01::err_class(&e)), format!("{} order {:?} decor {:?} ops {:?}: {}", tree.show(), case.order, case.decor, ops, e))),
         Ok(Some(Ok(c))) => {
             st.evals += 1;
             st.bump("stepwise_programs");
@@ -226,12 +321,16 @@ pub fn eval_case(case: &Case, st: &mut Stats) -> Vec<Fail> {
                     "append" => "op_append",
                     "prepend" => "op_prepend",
                     "insert_after" => "op_insert_after",
-                    _ => "op_insert_before",
+                    "insert_before" => "op_insert_before",
+                    "append_namespace_node" => "op_append_namespace_node",
+                    "append_attribute_node" => "op_append_attribute_node",
+                    "any_append" => "op_any_append",
+                    _ => "op_map_insert",
                 });
             }
             let rc = read(&xot, c);
             if let Some(d) = diff_class(&norm(tree), &norm(&rc)) {
-                fails.push(Fail::new(format!("stepwise-differs|{}", strip(&d)), format!("{} built in order {:?} (ops {:?}) gives {}", tree.show(), case.order, ops, rc.show())));
+                fails.push(Fail::new(format!("stepwise-differs|{}", strip(&d)), format!("{} built in order {:?} decor {:?} (ops {:?}) gives {}", tree.show(), case.order, case.decor, ops, rc.show())));
             } else {
                 if !xot.deep_equal(a, c) {
                     fails.push(Fail::new("stepwise|deep_equal-false", tree.show()));
@@ -282,6 +381,10 @@ fn documents(tier: Tier) -> Vec<A> {
         A::doc(vec![A::el(X, "d").decl("", X).child(A::el("", "b").decl("", "").child(A::el("", "c")))]),
         A::doc(vec![A::el(X, "d").decl("", X).child(A::el(Y, "b").decl("", Y).child(A::el(X, "c").decl("", X).child(A::el(X, "e"))))]),
     ];
+    // values that only survive the parse route if references and line ends are handled exactly
+    let mut extra = extra;
+    extra.push(A::doc(vec![A::el("", "a").attr("", "k", "x\ty\nz\rw").attr("", "l", " \"'<&> ").child(A::text("a\rb\tc\nd"))]));
+    extra.push(A::doc(vec![A::el("u\tv", "a").decl("p", "u\tv").attr("u\tv", "k", "\n").child(A::el("", "b").child(A::text("]]>")))]));
     let items = [A::comment("l"), A::pi("x", None)];
     let lead: Vec<Vec<A>> = (0..strings_count(2, 2)).map(|i| nth_string(&items, 2, i)).collect();
     let maxn = tier.pick(5, 6);
@@ -332,14 +435,14 @@ pub fn run(tier: Tier) -> i32 {
     let stats = par_slice(&ctx, &docs, |d, st| {
         st.bump("documents");
         let n = d.normal_size() - 1;
-        let c0 = Case { tree: d.clone(), order: vec![], prefer_left: false };
+        let c0 = Case { tree: d.clone(), order: vec![], prefer_left: false, decor: None };
         for f in eval_case(&c0, st) {
             st.fail(&c0, f);
         }
         st.outcome(&(d.canon(), 0usize, false));
         for (pi, perm) in perms[n].iter().enumerate() {
             for prefer_left in [false, true] {
-                let c = Case { tree: d.clone(), order: perm.clone(), prefer_left };
+                let c = Case { tree: d.clone(), order: perm.clone(), prefer_left, decor: None };
                 for f in eval_case(&c, st) {
                     st.fail(&c, f);
                 }
@@ -350,12 +453,49 @@ pub fn run(tier: Tier) -> i32 {
             st.sample(|| json!({"document": d.show(), "attach_steps": n, "programs": perms[n].len() * 2}));
         }
     });
-    if let Err(e) = require_nonzero(&stats, &["documents", "stepwise_programs", "op_append", "op_prepend", "op_insert_after", "op_insert_before"]) {
+    // declarations and attributes as steps of their own: every interleaving with the attach steps
+    let al = TreeAlphabet {
+        elements: vec![A::el("", "a"), A::el("", "b").attr("", "k", "v").attr("", "l", "w"), A::el(X, "c").decl("p", X).decl("q", Y).attr(Y, "m", "1")],
+        leaves: vec![A::text("t"), A::comment("c")],
+        adjacent_text: false,
+    };
+    let max_steps = tier.pick(7, 8);
+    let mut small: Vec<A> = vec![];
+    for k in 1..=3 {
+        for e in element_trees(&al, k) {
+            let d = A::doc(vec![e]);
+            let steps = d.normal_size() - 1 + decorations(&d).len();
+            if !decorations(&d).is_empty() && steps <= max_steps {
+                small.push(d);
+            }
+        }
+    }
+    let all_perms: Vec<Vec<Vec<usize>>> = (0..=max_steps).map(permutations).collect();
+    let stats2 = par_slice(&ctx, &small, |d, st| {
+        st.bump("decorated_documents");
+        let steps = d.normal_size() - 1 + decorations(d).len();
+        for (pi, perm) in all_perms[steps].iter().enumerate() {
+            if !decor_order_valid(d, perm) {
+                continue;
+            }
+            for api in 0..3u8 {
+                let prefer_left = (pi + api as usize) % 2 == 0;
+                let c = Case { tree: d.clone(), order: perm.clone(), prefer_left, decor: Some(api) };
+                for f in eval_case(&c, st) {
+                    st.fail(&c, f);
+                }
+                st.bump("decorated_programs");
+                st.outcome(&(d.canon(), pi + 1, api + 2));
+            }
+        }
+    });
+    let stats = stats.merge(stats2);
+    if let Err(e) = require_nonzero(&stats, &["documents", "stepwise_programs", "op_append", "op_prepend", "op_insert_after", "op_insert_before", "decorated_programs", "op_append_namespace_node", "op_append_attribute_node", "op_any_append", "op_map_insert"]) {
         eprintln!("MACHINERY: {}", e);
         return 2;
     }
     let cov = json!({
-        "rule": format!("documents = 0-2 leading and 0-2 trailing comments/PIs around every element tree with <= 4 ordinary nodes over 3 element prototypes (attributes, two declarations, namespaced attribute) and text/comment/PI leaves, total attach steps <= {}; routes: parse of the default rendering, fixed::Document / fixed::Element xotify, stepwise creation with every permutation of the attach steps x two neighbour preferences (append / prepend / insert_after / insert_before, bottom-up orders included; orders that make two text nodes adjacent transiently are skipped); distinct = distinct (document, program)", tier.pick(5, 6)),
+        "rule": format!("documents = 0-2 leading and 0-2 trailing comments/PIs around every element tree with <= 4 ordinary nodes over 3 element prototypes (attributes, two declarations, namespaced attribute) and text/comment/PI leaves, total attach steps <= {}; routes: parse of the default rendering, fixed::Document / fixed::Element xotify, stepwise creation with every permutation of the attach steps x two neighbour preferences (append / prepend / insert_after / insert_before, bottom-up orders included; orders that make two text nodes adjacent transiently are skipped); plus, for every element tree with <= 3 ordinary nodes that carries declarations or attributes and needs <= {} steps in all, bare elements with every declaration and attribute as a step of its own (append_namespace_node / append_attribute_node, any_append, or the map API), in every interleaving with the attach steps that keeps each element's map order; plus documents whose attribute values, namespace URIs and text contain TAB, LF, CR, quotes and markup characters; distinct = distinct (document, program)", tier.pick(5, 6), tier.pick(7, 8)),
     });
     ctx.finish(stats, cov, vec!["XmlWrite default rendering is trusted (self-checked by the parse route comparing against the abstract document)".into()])
 }
